@@ -254,3 +254,60 @@ def table_mismatch(names, got_fn, want_fn):
         if g is None or g != w:
             return a, g, w
     return None
+
+
+def leaf_conditions(event):
+    """distinct leaf conditions (comparisons / boolean atoms) in the guards of an event and of the exits before it"""
+    out = {}
+
+    def rec(c):
+        if isinstance(c, tuple):
+            if c and c[0] in ("&&", "||", "!"):
+                for x in c[1:]:
+                    rec(x)
+                return
+            if c and c[0] == "ite" and len(c) == 4:
+                for x in c[1:]:
+                    rec(x)
+                return
+            if c and c[0] in ("loop", "each"):
+                return
+            out.setdefault(str(c), c)
+            return
+        if c is sp.true or c is sp.false or c is True or c is False:
+            return
+        out.setdefault(str(c), c)
+    for c, _p, _n in event["guards"]:
+        rec(c)
+    for gl in event.get("not", []):
+        for c, _p, _n in gl:
+            rec(c)
+    return list(out.values())
+
+
+def decision_table(event, classify, conds=None):
+    """truth table of `the event happens` over all leaf conditions of its path condition.
+    classify(leaf) -> (name, polarity) for the predicates the rule knows; every other leaf becomes an extra predicate '?<text>'.
+    Returns (names, [(assignment, happens)])"""
+    known, extra = {}, {}
+    for lf in leaf_conditions(event):
+        o = classify(lf)
+        if o is None:
+            extra[str(lf)] = "?" + str(lf)[:60]
+        else:
+            known[o[0]] = True
+    names = sorted(known) + sorted(set(extra.values()))
+
+    def oracle(lf):
+        o = classify(lf)
+        if o is not None:
+            return o
+        s_ = str(lf)
+        return (extra[s_], True) if s_ in extra else None
+    if len(names) > 10:
+        return names, None
+    rows = []
+    for vals in itertools.product((True, False), repeat=len(names)):
+        a = dict(zip(names, vals))
+        rows.append((a, executes(event, None, a, oracle, conds)))
+    return names, rows
